@@ -145,7 +145,31 @@ func (g *c06Gen) form(d int) *sx.N {
 		}
 		return g.probe("v", sx.I(int64(g.r.Intn(100))))
 	}
-	switch g.r.Intn(10) {
+	switch g.r.Intn(13) {
+	case 9, 10, 11:
+		// the failure travels across a boundary on its way to the handler: a nested load,
+		// a callback invoked by a builtin, a binding form
+		inner := g.form(d - 1)
+		switch g.r.Intn(7) {
+		case 0, 1:
+			g.skel = append(g.skel, "via-load-string")
+			return sx.Call("load-string", &sx.N{K: sx.Str, Prog: []*sx.N{inner}})
+		case 2:
+			g.skel = append(g.skel, "via-map")
+			return sx.Call("map", sx.QY("list"), sx.Call("lambda", sx.L(sx.Y("x")), inner), sx.Q(sx.L(sx.I(1))))
+		case 3:
+			g.skel = append(g.skel, "via-funcall")
+			return sx.Call("funcall", sx.Call("lambda", sx.L(), inner))
+		case 4:
+			g.skel = append(g.skel, "via-apply")
+			return sx.Call("apply", sx.Call("lambda", sx.L(sx.Y("&rest"), sx.Y("a")), inner), sx.Q(sx.L(sx.I(1), sx.I(2))))
+		case 5:
+			g.skel = append(g.skel, "via-let")
+			return sx.Call("let", sx.L(sx.L(sx.Y("x"), inner)), sx.Y("x"))
+		default:
+			g.skel = append(g.skel, "via-foldl")
+			return sx.Call("foldl", sx.Call("lambda", sx.L(sx.Y("acc"), sx.Y("x")), inner), sx.I(0), sx.Q(sx.L(sx.I(1))))
+		}
 	case 0, 1, 2:
 		g.skel = append(g.skel, "hb")
 		n := g.r.Range(1, 4)
